@@ -402,7 +402,24 @@ func c06Run(p c06Plan, targetKind string, target int, after bool) (out c06Outcom
 	for _, a := range acked {
 		fetchCheck(h, a, "after restart")
 	}
+	// C06/C02: the first append after the restart must continue exactly where the stored
+	// log ends: not inside acknowledged or stored offsets (reuse) and not beyond them (a
+	// hole that no record will ever fill, e.g. by counting an index-less orphan segment).
+	// "Stored" = complete segments (with index) as decoded by the independent codec.
+	storedEnd := c01hDurableEnd(obj, 0)
+	for _, a := range acked {
+		if e := a.Base + int64(a.N); e > storedEnd {
+			storedEnd = e
+		}
+	}
+	nAckedBefore := len(acked)
 	produce(h, c06Op{Records: 2, ValSize: 10}, "after restart", func() bool { return true })
+	if len(acked) == nAckedBefore+1 {
+		if got := acked[len(acked)-1].Base; got != storedEnd {
+			out.Violations = append(out.Violations, fmt.Sprintf("after restart: first new batch acked at base offset %d but the stored log (complete segments and acknowledged batches) ends at %d; S3 keys %v", got, storedEnd, obj.Keys()))
+		}
+	}
+	produce(h, c06Op{Records: 2, ValSize: 10}, "after restart (2)", func() bool { return true })
 	produce(h, c06Op{Records: 1, ValSize: 10}, "after restart", func() bool { return true })
 	for _, a := range acked {
 		fetchCheck(h, a, "after restart+append")
